@@ -5,11 +5,12 @@
 import Driver.Ops
 import Driver.OpsCompare
 import Driver.OpsMatch
+import Driver.OpsApply
 open Lean
 namespace Driver
 
 def allOps : List (String × Op) :=
-  opsCompare ++ opsMatch
+  opsCompare ++ opsMatch ++ opsApply
 
 def handle (line : String) : Json :=
   match Json.parse line with
